@@ -55,6 +55,8 @@ def main():
         if rc != 0:
             out['apply_err'] = o[-400:]
             print(json.dumps(out, indent=1)); return 2
+        # what the demonstration left behind in the worktree (an emitted library with its own tests) must not be collected
+        sh(['git', 'clean', '-fdxq', '-e', '_demo.py'], cwd=wt)
         e2 = dict(os.environ); e2.pop('PYTHONPATH', None); e2.pop('GAPIC_GENERATOR_VERIF', None)
         rc, o = sh('/venv/bin/python -m pytest -q -p no:cacheprovider --timeout=900 --continue-on-collection-errors 2>&1 | tail -1', cwd=wt, env=e2, timeout=1800)
         out['pytest'] = o.strip()[-80:]
